@@ -288,7 +288,20 @@ class Surface(Numbered_MCNP_Object):
             self._tree.nodes["pointer"] = self._old_periodic_surface
         else:
             # neither a transform nor a periodic surface (anymore)
-            self._tree["pointer"].value = None
+            pointer = self._tree["pointer"]
+            if (
+                pointer.value is not None
+                and pointer.padding is not None
+                and any(pointer.padding.comments)
+            ):
+                # the comments after the pointer now follow the surface number
+                number = self._tree["surface_num"]["number"]
+                if number.padding is None:
+                    number.padding = pointer.padding
+                else:
+                    number.padding += pointer.padding
+                pointer.padding = None
+            pointer.value = None
 
     def __lt__(self, other):
         return self.number < other.number
